@@ -455,7 +455,14 @@ def d4_fanout(ctx):
         ctx.check(okpad, worker, pad[0], pad[0], "padding samples are appended only after the last batch of the file", "padding can be written in the middle of the file", key="padding")
 
 
+def dS_shared(ctx):
+    from sa.common import rule_no_shared_mutation
+    rule_no_shared_mutation(ctx, "DS", ['ibldsp.voltage.decompress_destripe_cbin', 'ibldsp.voltage.decompress_destripe_cbin.my_function'],
+                            'a later batch is processed with tables an earlier batch modified: output depends on batch order / worker count')
+
+
 def run(ctx):
+    ctx.run(dS_shared)
     ctx.run(d1_tiling)
     ctx.run(d2_sync)
     ctx.run(d3_qc)
